@@ -175,13 +175,13 @@ Proof.
   - (* producer *)
     cbn in Hq. apply andb_true_iff in Hq as [Hil Hst].
     unfold legal in Hlegal. cbn in Hlegal. rewrite andb_true_r in Hlegal. apply andb_true_iff in Hlegal as [Hi Hh].
-    fold (iter_n k a). cbn [observe]. fold (iter_n k a). unfold pipe_stream, srv_init, hdr_events.
+    fold (iter_n k a). cbn [observe]. fold (iter_n k a). unfold pipe_stream_for, srv_init_for, init_outcome, hdr_events.
     unfold pipe_reads in Hreads. cbn [reads_something init_raises closes] in Hreads.
     destruct (ires sp) as [|e|]; try discriminate Hi.
     + (* init ok *)
       rewrite (deliver_quiet _ _ Hil).
-      destruct h.
-      * destruct (hdr sp) as [v|]; try discriminate Hh.
+      destruct h; cbv beta iota.
+      * destruct (hdr sp) as [v|]; try discriminate Hh. cbv beta iota.
         rewrite (cli_read_logs _ _ Hil). cbn [cli_read skip_eos app].
         destruct (is_zero (iter_n k a)) eqn:Hz.
         -- destruct (iter_n k a) as [[|?]|]; try discriminate Hz.
@@ -200,7 +200,7 @@ Proof.
            destruct (pipe_prod CbRecord true (steps sp) (iter_n k a) (map FLog (ilogs sp))) as [es' z].
            cbn [app]. exact HL.
     + (* init raises *)
-      destruct h.
+      destruct h; cbv beta iota.
       * cbn. reflexivity.
       * assert (Hz : is_zero (iter_n k a) = false).
         { destruct a, k; cbn in *; try reflexivity; discriminate Hreads. }
@@ -209,12 +209,12 @@ Proof.
     cbn in Hq. apply andb_true_iff in Hq as [Hil Hst].
     unfold legal in Hlegal. cbn [script_kind_ok after_ok] in Hlegal. apply andb_true_iff in Hlegal as [Hk Ha].
     apply andb_true_iff in Hk as [Hi Hh].
-    cbn [observe]. unfold pipe_stream, srv_init, hdr_events.
+    cbn [observe]. unfold pipe_stream_for, srv_init_for, init_outcome, hdr_events.
     unfold pipe_reads in Hreads. cbn [reads_something init_raises closes] in Hreads.
     destruct (ires sp) as [|e|]; try discriminate Hi.
     + rewrite (deliver_quiet _ _ Hil).
-      destruct h.
-      * destruct (hdr sp) as [v|]; try discriminate Hh.
+      destruct h; cbv beta iota.
+      * destruct (hdr sp) as [v|]; try discriminate Hh. cbv beta iota.
         rewrite (cli_read_logs _ _ Hil). cbn [cli_read skip_eos app].
         destruct n as [|n'].
         -- cbn [pipe_exch obs_exch]. rewrite (after_drained a [] true eq_refl). rewrite ?app_nil_r. reflexivity.
@@ -228,7 +228,7 @@ Proof.
         -- pose proof (pipe_exch_live a (S n') (steps sp) (ilogs sp) Hil Hst ltac:(congruence)) as HL.
            destruct (pipe_exch CbRecord true (steps sp) (S n') (map FLog (ilogs sp))) as [es' z].
            cbn [app]. exact HL.
-    + destruct h.
+    + destruct h; cbv beta iota.
       * cbn. reflexivity.
       * assert (Hz : n <> O). { destruct n; [cbn in Hreads; discriminate Hreads|congruence]. }
         rewrite (pipe_exch_initraise _ _ _ _ Hz). reflexivity.
